@@ -11,6 +11,7 @@ import (
 	"os"
 	"path/filepath"
 	"runtime"
+	"runtime/debug"
 	"sort"
 	"strconv"
 	"strings"
@@ -49,20 +50,21 @@ type Run struct {
 	Exhaustive        bool
 	Caps              []string
 
-	mu          sync.Mutex
-	start       time.Time
-	evaluations int64
-	distinct    map[[8]byte]struct{}
-	samples     []any
-	maxSamples  int
-	fails       []Fail
-	failKeys    map[string]bool
-	known       []*known
-	States      int64
-	Transitions int64
-	Traces      int64
-	Deadline    time.Time
-	classCount  map[string]int64
+	mu            sync.Mutex
+	start         time.Time
+	evaluations   int64
+	distinct      map[[8]byte]struct{}
+	samples       []any
+	maxSamples    int
+	fails         []Fail
+	failKeys      map[string]bool
+	known         []*known
+	States        int64
+	Transitions   int64
+	Traces        int64
+	Deadline      time.Time
+	classCount    map[string]int64
+	distinctExtra int64
 }
 
 func New(prop, level string) *Run {
@@ -178,6 +180,13 @@ func (r *Run) Observe(parts ...string) {
 	r.mu.Unlock()
 }
 
+// AddDistinct adds n cases that are distinct by construction (the check's rule says why).
+func (r *Run) AddDistinct(n int64) {
+	r.mu.Lock()
+	r.distinctExtra += n
+	r.mu.Unlock()
+}
+
 func (r *Run) Sample(v any) {
 	r.mu.Lock()
 	if len(r.samples) < r.maxSamples {
@@ -208,6 +217,16 @@ func (r *Run) Case(id string, fn func() *Fail) {
 		return
 	}
 	r.Eval(1)
+	inner := fn
+	fn = func() (f *Fail) {
+		// a panic of the code under test while answering a case is a failure of that case
+		defer func() {
+			if p := recover(); p != nil {
+				f = &Fail{Key: id, What: fmt.Sprintf("panic while executing the case: %v", p), Detail: map[string]any{"panic": fmt.Sprint(p), "stack": string(debug.Stack())}}
+			}
+		}()
+		return inner()
+	}
 	f := fn()
 	if f == nil {
 		return
@@ -297,7 +316,7 @@ func (r *Run) Finish() {
 		r.samples = append(r.samples, "no sample recorded")
 	}
 	cov["evaluations"] = r.evaluations
-	cov["distinct_nontrivial"] = len(r.distinct)
+	cov["distinct_nontrivial"] = int64(len(r.distinct)) + r.distinctExtra
 	cov["rule"] = r.Rule
 	cov["samples"] = r.samples
 	cov["exhaustive"] = r.Exhaustive
@@ -337,7 +356,7 @@ func (r *Run) Finish() {
 		Engine("evidence write: %v", err)
 	}
 	fmt.Printf("%s %s: evaluations=%d distinct=%d states=%d transitions=%d violations=%d known=%d exhaustive=%v wall=%.1fs\n",
-		r.Prop, r.Tier, r.evaluations, len(r.distinct), r.States, r.Transitions, len(r.fails), len(kf), r.Exhaustive, wall)
+		r.Prop, r.Tier, r.evaluations, int64(len(r.distinct))+r.distinctExtra, r.States, r.Transitions, len(r.fails), len(kf), r.Exhaustive, wall)
 	for _, l := range lines {
 		fmt.Println(l)
 	}
